@@ -3,7 +3,11 @@
 The if/elif chain over hardware families becomes a decision table: per branch its
 condition and the commands appended to `before` / `after`, each with the guard under
 which it is appended.  Conditions are boolean expressions over the atoms do_commit,
-do_finalize, hardware flags (hw.X.Y) and two opaque atoms (soft prefix, env var)."""
+do_finalize, hardware flags (hw.X.Y) and two opaque atoms (soft prefix, env var).
+
+Also emitted (used by C09): the same table for annet/rulebook/aruba/ap_env.py:apply (the only other
+apply_logic shipped) and the deploy-rule defaults of annet/rulebook/deploying.py (DEFAULT_TIMEOUT,
+DEFAULT_APPLY_LOGIC, checked to be what match_deploy_rule's default rule and the params scheme use)."""
 from __future__ import annotations
 
 import ast
@@ -66,12 +70,68 @@ def walk(stmts, guard: str, out: list):
         raise Unsupported("statement: " + ast.unparse(st)[:200])
 
 
+def init_ok(st) -> bool:
+    return isinstance(st, ast.Assign) and ast.unparse(st).replace(" ", "").replace("(before,after)", "before,after") \
+        .replace("(CommandList(),CommandList())", "CommandList(),CommandList()") == "before,after=CommandList(),CommandList()"
+
+
+def ap_env(repo: Path) -> list:
+    """aruba/ap_env.py:apply — init; statements adding commands; return (before, after)."""
+    mod = ast.parse((repo / "annet" / "rulebook" / "aruba" / "ap_env.py").read_text())
+    fn = next(n for n in mod.body if isinstance(n, ast.FunctionDef) and n.name == "apply")
+    body = list(fn.body)
+    if not init_ok(body[0]) or not isinstance(body[-1], ast.Return) or \
+            ast.unparse(body[-1].value).replace(" ", "").strip("()") != "before,after":
+        raise Unsupported("aruba.ap_env.apply is no longer: init; ...; return (before, after)")
+    cmds: list = []
+    walk(body[1:-1], "BTrue", cmds)
+    return cmds
+
+
+def deploy_defaults(repo: Path) -> tuple[int, str]:
+    mod = ast.parse((repo / "annet" / "rulebook" / "deploying.py").read_text())
+    consts = {}
+    for n in mod.body:
+        if isinstance(n, ast.Assign) and len(n.targets) == 1 and isinstance(n.targets[0], ast.Name) \
+                and isinstance(n.value, ast.Constant):
+            consts[n.targets[0].id] = n.value.value
+    timeout, logic = consts["DEFAULT_TIMEOUT"], consts["DEFAULT_APPLY_LOGIC"]
+    if not isinstance(timeout, int) or timeout <= 0 or not isinstance(logic, str):
+        raise Unsupported("DEFAULT_TIMEOUT / DEFAULT_APPLY_LOGIC")
+    # the default rule returned by match_deploy_rule and the params scheme must use the same values
+    fn = next(n for n in mod.body if isinstance(n, ast.FunctionDef) and n.name == "match_deploy_rule")
+    ret = fn.body[-1]
+    if not isinstance(ret, ast.Return) or not isinstance(ret.value, ast.Dict):
+        raise Unsupported("match_deploy_rule does not end in the default rule literal")
+    attrs = dict(zip((k.value for k in ret.value.keys), ret.value.values))["attrs"]
+    d = dict(zip((k.value for k in attrs.keys), (ast.unparse(v) for v in attrs.values)))
+    if d.get("timeout") not in ("DEFAULT_TIMEOUT", repr(timeout)) or \
+            d.get("apply_logic") not in ("import_rulebook_function(DEFAULT_APPLY_LOGIC)", f"import_rulebook_function({logic!r})") or \
+            d.get("dialogs") not in ("odict()", "OrderedDict()", "{}"):
+        raise Unsupported("default deploy rule: " + str(d))
+    comp = next(n for n in mod.body if isinstance(n, ast.FunctionDef) and n.name == "compile_deploying_text")
+    scheme = None
+    for n in ast.walk(comp):
+        if isinstance(n, ast.keyword) and n.arg == "params_scheme" and isinstance(n.value, ast.Dict):
+            scheme = dict(zip((k.value for k in n.value.keys), n.value.values))
+    if scheme is None:
+        raise Unsupported("params_scheme")
+
+    def dflt(name):
+        dd = dict(zip((k.value for k in scheme[name].keys), scheme[name].values))
+        return ast.unparse(dd["default"])
+    if dflt("timeout") not in ("DEFAULT_TIMEOUT", repr(timeout)) or dflt("apply_logic") not in ("DEFAULT_APPLY_LOGIC", repr(logic)) \
+            or dflt("send_nl") not in ("True", "DEFAULT_SEND_NL") or dflt("ifcontext") != "[]":
+        raise Unsupported("params scheme defaults")
+    return timeout, logic
+
+
 def translate(repo: Path):
     src = (repo / "annet" / "annlib" / "rulebook" / "common.py").read_text()
     mod = ast.parse(src)
     fn = next(n for n in mod.body if isinstance(n, ast.FunctionDef) and n.name == "apply")
     body = list(fn.body)
-    if not (isinstance(body[0], ast.Assign) and ast.unparse(body[0]).replace(" ", "").replace("(before,after)", "before,after").replace("(CommandList(),CommandList())", "CommandList(),CommandList()") == "before,after=CommandList(),CommandList()"):
+    if not init_ok(body[0]):
         raise Unsupported("first statement")
     chain = body[1]
     if not isinstance(chain, ast.If) or not isinstance(body[2], ast.Return) or len(body) != 3:
@@ -88,6 +148,10 @@ def translate(repo: Path):
         if not (len(node.orelse) == 1 and isinstance(node.orelse[0], ast.Raise)):
             raise Unsupported("else branch is not a raise")
         break
+    if ast.unparse(body[2].value).replace(" ", "").strip("()") != "before,after":
+        raise Unsupported("apply() does not return (before, after)")
+    ap = ap_env(repo)
+    timeout, logic = deploy_defaults(repo)
     rows = ";\n  ".join(f"({c}, [{'; '.join(cs)}])" for c, cs in branches)
     txt = f"""(* GENERATED by harness/translators/tr_apply.py from annlib/rulebook/common.py:apply — do not edit *)
 From Coq Require Import List String.
@@ -100,5 +164,11 @@ Inductive side := SBefore | SAfter.
 Definition apply_table : list (bexp * list (side * string * nat * bexp)) := [
   {rows}
 ].
+(* annet/rulebook/aruba/ap_env.py:apply *)
+Definition ap_env_table : list (side * string * nat * bexp) := [{'; '.join(ap)}].
+(* annet/rulebook/deploying.py: DEFAULT_TIMEOUT (seconds), DEFAULT_APPLY_LOGIC *)
+Definition default_timeout_s : nat := {timeout}%nat.
+Definition default_apply_logic : string := {cstr(logic)}.
 """
-    return [("Src_apply.v", txt, {"branches": len(branches), "commands": sum(len(c) for _, c in branches)})]
+    return [("Src_apply.v", txt, {"branches": len(branches), "commands": sum(len(c) for _, c in branches),
+                                  "ap_env_commands": len(ap), "default_timeout_s": timeout})]
